@@ -67,8 +67,7 @@ Proof.
   cbn [code_sem s_factors] in Hfo.
   rewrite (forallb_index_map_ds (fun f fd => code_factor fb f fd) (fun f d => factor_ok (code_sem fb) q f d) (fl_design fb)) in Hfo.
   unfold is_excluded_or_inconsistent, is_excluded_combination.
-  rewrite (f1_no_excluded_derived fb Facts). cbn [existsb]. rewrite orb_false_r.
-  apply orb_false_iff. split.
+  apply orb_false_iff. split; [apply orb_false_iff; split|].
   - (* an excluded (factor, level) pair *)
     apply not_true_is_false. intros H. apply existsb_exists in H. destruct H as ([f l] & Hp & Hl).
     unfold level_is in Hl. cbn [fst snd] in Hl.
@@ -80,6 +79,37 @@ Proof.
     pose proof (proj1 (Forall_forall _ _) Hex t (proj2 (in_trials_of fb f 0 (T fb) t) (conj (conj (Nat.le_0_l _) Ht) Hap))) as Hb.
     cbv beta in Hb. destruct Ho as (_ & _ & _ & Hbit & _). rewrite (Hbit t f l Ht Hf Hap Hlv), Ecell, is_level_some, Nat.eqb_refl in Hb.
     discriminate.
+  - (* a combination of basic levels that makes an excluded derived level true *)
+    apply not_true_is_false. intros H. apply existsb_exists in H. destruct H as (e & He & Hall).
+    rewrite forallb_forall in Hall.
+    destruct (f1_no_excluded_derived fb Facts e He) as ([f0 ld] & Hp & Hed).
+    unfold excluded_derived_of in Hed. cbn [fst snd] in Hed. unfold factor_at in Hed.
+    destruct (nth_error (fl_design fb) f0) as [fd|] eqn:Efd; [|discriminate].
+    destruct (ff_window fd) as [w|] eqn:Ew; [|discriminate].
+    rewrite !andb_true_iff in Hed. destruct Hed as [[[Ha0 Hcx] Hdeps] Hacc]. apply negb_true_iff in Hcx.
+    rewrite forallb_forall in Hdeps.
+    assert (Hs0 : sact fb f0 = true).
+    { apply (sact_split fb). split; [exact Ha0|]. unfold is_complex, factor_at. now rewrite Efd. }
+    (* the cells of the factors it reads are the levels of [e] *)
+    assert (Hargs : map (lev q t) (win_deps w) = map (fun d => match lookup_level e d with Some x => x | None => 0 end) (win_deps w)).
+    { apply map_ext_in. intros d Hd. specialize (Hdeps d Hd).
+      destruct (lookup_level e d) as [x|] eqn:Ee; [|discriminate].
+      pose proof (Hall (d, x) (lookup_in e d x Ee)) as Hli. unfold level_is in Hli. cbn [fst snd] in Hli.
+      destruct (lookup_level di d) as [x'|] eqn:Ed; [|discriminate]. apply Nat.eqb_eq in Hli. subst x'.
+      destruct (shown_cell s q c di t d x Ho Hc Hac Hdi Ht Hsh (lookup_in di d x Ed)) as (_ & _ & Ec & _).
+      unfold lev. now rewrite Ec. }
+    destruct (sact_lappl fb HF1 f0 t Hs0) as [_ Hap0].
+    pose proof Ho as (_ & _ & Hcell & Hbit & _).
+    destruct (Hcell t f0 Ht Ha0 Hap0) as (l0 & Hl0 & El0).
+    pose proof (proj1 (factor_ok_f1 fb HF1 HT s q f0 fd Ho Hg Efd Hs0) (Hfo f0 fd Efd) w Ew t l0 Ht El0) as Hacc0.
+    assert (Hacc1 : accepts (dwin fd w) ld (cargs q (win_deps w) t) = true).
+    { rewrite (accepts_level_accepts fb HF1 s q f0 fd w t ld Ho Efd Ew Hs0 Ht), Hargs. exact Hacc. }
+    pose proof (accepts_unique fb HF1 HT s q f0 fd w t ld l0 Ho Efd Ew Hs0 Ht Hacc1 Hacc0) as E. subst l0.
+    assert (Hlv : ld < nlevels fb f0) by exact Hl0.
+    specialize (Hex (f0, ld) Hp). cbn [fst snd] in Hex. unfold Pexclude in Hex.
+    apply ntrue_all_false in Hex. unfold F1Kinds.col in Hex. rewrite Forall_map in Hex.
+    pose proof (proj1 (Forall_forall _ _) Hex t (proj2 (in_trials_of fb f0 0 (T fb) t) (conj (conj (Nat.le_0_l _) Ht) Hap0))) as Hb.
+    cbv beta in Hb. rewrite (Hbit t f0 ld Ht Ha0 Hap0 Hlv), El0, is_level_some, Nat.eqb_refl in Hb. discriminate.
   - (* a derived level no compatible argument tuple satisfies *)
     apply not_true_is_false. intros H. apply existsb_exists in H. destruct H as ([f l] & Hp & Hbad). cbn [fst snd] in Hbad.
     unfold factor_at in Hbad. destruct (nth_error (fl_design fb) f) as [fd|] eqn:Efd; [|discriminate].
